@@ -307,6 +307,13 @@ func evalConfP(cf *sdl.Conf, cfg map[string]string, preset bool) confExpect {
 		x, _ := strconv.Atoi(a)
 		y, _ := strconv.Atoi(b)
 		val = strconv.Itoa(x + y)
+	case "concatPad":
+		x, ok := cfg[cf.Keys[0]]
+		if !ok {
+			e.Open = true
+			return e
+		}
+		val = x + ":  "
 	case "cmp", "tern", "concat", "affine", "and", "mod":
 		var xs []string
 		for _, k := range cf.Keys {
@@ -600,7 +607,7 @@ func (w *World) CheckConfigStages(o *Obs) []Violation {
 			cfg2[p.PostSetKey] = strconv.Itoa(p.PostSetVal)
 		}
 		exprMenu := func(m string) bool {
-			return m == "sum" || m == "mul" || m == "nested" || m == "sumDef" || m == "sumDef2" || m == "div" || m == "cmp" || m == "tern" || m == "concat" || m == "affine" || m == "and" || m == "mod" || m == "indirect"
+			return m == "sum" || m == "mul" || m == "nested" || m == "sumDef" || m == "sumDef2" || m == "div" || m == "concatPad" || m == "cmp" || m == "tern" || m == "concat" || m == "affine" || m == "and" || m == "mod" || m == "indirect"
 		}
 		judge := func(inst string, t *sdl.Type, round int, cfgR map[string]string, l LookupObs, got map[string]string) (created, judged bool) {
 			bad, why := false, ""
@@ -676,7 +683,7 @@ func (w *World) CheckConfigStages(o *Obs) []Violation {
 			}
 			if got != x.e.Value {
 				oracle := "bound-value-differs"
-				if x.cf.Menu == "sum" || x.cf.Menu == "mul" || x.cf.Menu == "nested" || x.cf.Menu == "sumDef" || x.cf.Menu == "sumDef2" || x.cf.Menu == "div" || x.cf.Menu == "cmp" || x.cf.Menu == "tern" || x.cf.Menu == "concat" || x.cf.Menu == "affine" || x.cf.Menu == "and" || x.cf.Menu == "mod" || x.cf.Menu == "indirect" {
+				if x.cf.Menu == "sum" || x.cf.Menu == "mul" || x.cf.Menu == "nested" || x.cf.Menu == "sumDef" || x.cf.Menu == "sumDef2" || x.cf.Menu == "div" || x.cf.Menu == "concatPad" || x.cf.Menu == "cmp" || x.cf.Menu == "tern" || x.cf.Menu == "concat" || x.cf.Menu == "affine" || x.cf.Menu == "and" || x.cf.Menu == "mod" || x.cf.Menu == "indirect" {
 					oracle = "expression-result-differs"
 				}
 				vs = append(vs, v("C18", oracle, x.inst+"."+x.cf.Field, fmt.Sprintf("%s.%s (%s %v default=%q) holds %q, the menu evaluator gives %q over configuration %v", x.inst, x.cf.Field, x.cf.Menu, x.cf.Keys, x.cf.Default, got, x.e.Value, cfg)))
